@@ -338,6 +338,18 @@ def check(case):
             v0 = float(got)
         _value(case, f, sim, want, 'log-likelihood')
 
+    # a freshly built filter whose FIRST evaluation is the one with sensitivities (a purely gradient-based sampler)
+    if not s.get('big') and np.isfinite(want):
+        with case.clause('sensitivities_first'):
+            f2 = rf.build(parts, obs, composed)
+            out2 = f2.compute_sensitivities(sim.copy())
+            case.close(float(out2[0]), want, rtol=max(1e-9, 100.0 * _COND[0]),
+                       what='score of compute_sensitivities as the first evaluation of a new filter')
+            if v0 is not None and not case.fails:
+                out1 = f.compute_sensitivities(sim.copy())
+                case.close(np.asarray(out2[1], dtype=float), np.asarray(out1[1], dtype=float), rtol=1e-12,
+                           what='sensitivities as the first evaluation of a new filter vs after a log-likelihood evaluation')
+
     if s.get('big'):
         with case.clause('sensitivities'):
             out = f.compute_sensitivities(sim.copy())
